@@ -14,6 +14,12 @@ Monitors (ghost state from the ops only):
                                             rejection since) is missing from the STREAM frames of an `Append` with room;
 * `flow_control_frame_of_rejected_0rtt_sent` a MAX_* / *_BLOCKED frame queued before a 0-RTT rejection comes out after it;
 * `control_frame_lost`                      another queued control frame does not come out of the next `Append`;
+* `control_frame_of_discarded_stream_sent`  `Append` carries more stream-related control frames (RESET_STREAM /
+                                            STOP_SENDING / MAX_STREAM_DATA) of a stream id than streams announced
+                                            under that id since the last 0-RTT rejection: a frame of a stream the
+                                            rejection discarded (class stale_stream_control_after_0rtt_rejection:
+                                            listed finding while `Handle0RTTRejection` leaves
+                                            `streamsWithControlFrames` alone);
 * `caller_array_written_by_dial`            the caller's transport-parameter array (spare capacity included) no longer
                                             reads what the spec was made with;
 * `connection_advertises_foreign_id`        the spec has an empty initial_source_connection_id placeholder (not
@@ -89,6 +95,10 @@ structure St where
   /-- frames each open stream still has / control frames each stream still has (model environment) -/
   pend : List (Nat × Nat) := []
   cpend : List (Nat × Nat) := []
+  /-- model environment: control frames of stubs a rejection detached (the stream objects are gone) -/
+  cold : List (Nat × Nat) := []
+  /-- ghost: control frames announced per stream id since the last rejection, not yet taken by an Append -/
+  creg : List (Nat × Nat) := []
   /-- ghost: streams that registered data and neither completed nor were reset since: id ↦ frames -/
   reg : List (Nat × Nat) := []
   /-- ghost: queued control frames that must come out of the next Append / that must never come out -/
@@ -127,7 +137,8 @@ def step (s : St) (op impl : String) : St × StepOut :=
   | ["fctl", ids, ns] =>
     let id := natOf ids
     let f' := addCtrl s.f id
-    ({ s with f := f', cpend := setA s.cpend id (getA s.cpend id + natOf ns) }, { model := stateTxt f', tags := ["fctl"] })
+    ({ s with f := f', cpend := setA s.cpend id (getA s.cpend id + natOf ns), creg := setA s.creg id (getA s.creg id + natOf ns) },
+     { model := stateTxt f', tags := ["fctl"] ++ (if (s.cold.find? (·.1 == id)).isSome && id ∈ s.f.ctrl then ["fctl:behind_discarded_stream"] else []) })
   | ["fq", k, t] =>
     match ctlOf k with
     | none => (s, { model := "skip" })
@@ -138,14 +149,19 @@ def step (s : St) (op impl : String) : St × StepOut :=
   | ["frej"] =>
     let f' := handle0RTTRejection s.f
     let isFC (t : String) : Bool := match ctlOf ((t.splitOn "#").headD "") with | some c => c.flowControl | none => false
-    ({ s with f := f', pend := [], reg := [], rejections := s.rejections + 1,
+    -- the stream objects are gone; the stubs the framer still knows keep what they have queued (a detached stub the
+    -- framer already held from an earlier rejection stays the one it asks)
+    let held := (s.cold ++ s.cpend.filter (fun e => (s.cold.find? (·.1 == e.1)).isNone)).filter (fun e => e.1 ∈ f'.ctrl)
+    ({ s with f := f', pend := [], reg := [], cpend := [], cold := held, creg := [], rejections := s.rejections + 1,
               dead := s.dead ++ s.cfq.filter isFC, cfq := s.cfq.filter (fun t => !isFC t) },
      { model := stateTxt f',
        tags := ["frej"] ++ (if !s.f.active.isEmpty then ["frej:streams_registered"] else []) ++
                (if s.f.frames.any (·.1.flowControl) then ["frej:flow_control_frames_queued"] else []) ++
                (if !s.f.ctrl.isEmpty then ["frej:control_streams_registered"] else []) })
   | ["fpop"] =>
-    let (f1, scs, cfs) := appendControl s.f (getA s.cpend)
+    -- the framer asks the stub it holds: a detached one shadows the stream announced under the same id afterwards
+    let cp : Nat → Nat := fun id => if (s.cold.find? (·.1 == id)).isSome then getA s.cold id else getA s.cpend id
+    let (f1, scs, cfs) := appendControl s.f cp
     let (f2, pend', out) := appendStreams f1 (getA s.pend)
     let ctl := (sortNat scs).map (fun id => s!"sc{id}") ++ cfs.map frameTxt
     let model := s!"ctl={strsTxt ctl} str={idsTxt out} | {stateTxt f2}"
@@ -161,13 +177,23 @@ def step (s : St) (op impl : String) : St × StepOut :=
       ("flow_control_frame_of_rejected_0rtt_sent", "-", s!"{t} was queued before the 0-RTT rejection and sent after it")
     let f3s := (s.cfq.filter fun t => !implCtl.contains t).map fun t =>
       ("control_frame_lost", "-", s!"{t} was queued and did not come out of Append: ctl={m.get "ctl"}")
+    let scIds := (implCtl.filter (·.startsWith "sc")).map fun t => natOf (t.drop 2).toString
+    let f4s := (scIds.eraseDups.filter fun id => scIds.count id > getA s.creg id).map fun id =>
+      ("control_frame_of_discarded_stream_sent", (if s.rejections > 0 then "stale_stream_control_after_0rtt_rejection" else "-"),
+       s!"Append carries {scIds.count id} stream-related control frame(s) of stream {id}, {getA s.creg id} announced" ++
+       (if s.rejections > 0 then " since the 0-RTT rejection that discarded the streams" else "") ++ s!": ctl={m.get "ctl"}")
     let reg' := (s.reg.map fun e => (e.1, e.2 - implStr.count e.1)).filter (·.2 > 0)
-    ({ s with f := f2, pend := s.pend.map (fun e => (e.1, pend' e.1)), cpend := [], reg := reg', cfq := [] },
-     { model := model, fails := f1s ++ f2s ++ f3s,
+    let creg' := (s.creg.map fun e => (e.1, e.2 - scIds.count e.1)).filter (·.2 > 0)
+    -- a stream shadowed by a detached stub was not asked: it keeps its frames (and is not registered)
+    let shadowed := s.cpend.filter fun e => (s.cold.find? (·.1 == e.1)).isSome || !(s.f.ctrl.contains e.1)
+    ({ s with f := f2, pend := s.pend.map (fun e => (e.1, pend' e.1)), cpend := shadowed, cold := [], creg := creg', reg := reg', cfq := [] },
+     { model := model, fails := f1s ++ f2s ++ f3s ++ f4s,
        tags := [if out.isEmpty then "fpop:no_stream_frame" else "fpop:stream_frames"] ++
                (if s.rejections > 0 && !out.isEmpty then ["fpop:stream_frames_after_rejection"] else []) ++
                (if out.length > (out.eraseDups).length then ["fpop:same_stream_twice"] else []) ++
-               (if !f2.queue.isEmpty then ["fpop:pushed_back"] else []) })
+               (if !f2.queue.isEmpty then ["fpop:pushed_back"] else []) ++
+               (if s.rejections > 0 && !scs.isEmpty then ["fpop:stream_control_after_rejection"] else []) ++
+               (if !s.cold.isEmpty && !scs.isEmpty then ["fpop:control_frame_of_discarded_stream"] else []) })
   | "snew" :: rest =>
     let m := kvOf rest
     let k := natOf (m.get "k")
